@@ -76,10 +76,11 @@ def schedule(ex, f, head, proj, aff, w):
     return sched
 
 
-def step(ex, f, head, proj, aff, w, n, pos, nxt, chk, gname, top_bit_assumed=True, tag=''):
+def step(ex, f, head, proj, aff, w, n, pos, nxt, chk, gname, top_bit_assumed=True, tag='', npts=None, nsc=None):
     b, d = pos
     st = State()
-    ks, scref, ptref, width = setup_inputs(ex, st, aff, n)
+    ks, scref, ptref, width = setup_inputs(ex, st, aff, n, npts=npts, nsc=nsc)
+    nmin = min(n if npts is None else npts, n if nsc is None else nsc)
     ex.D.arity = n
     R = [z3.BitVec('R%d' % i, WS) for i in range(n)]
     if top_bit_assumed:
@@ -113,9 +114,12 @@ def step(ex, f, head, proj, aff, w, n, pos, nxt, chk, gname, top_bit_assumed=Tru
     pre = '%s pippenger(w=%d,n=%d)%s @bit %d: ' % (gname, w, n, tag, b)
     diffs = []
     for i in range(n):
-        k = z3.Concat(ks[i][3], ks[i][2], ks[i][1], ks[i][0])
-        digit = z3.Extract(lo + width_b - 1, lo, k)
-        want = (R[i] << d) + z3.ZeroExt(WS - width_b, digit)
+        if i < nmin:
+            k = z3.Concat(ks[i][3], ks[i][2], ks[i][1], ks[i][0])
+            digit = z3.Extract(lo + width_b - 1, lo, k)
+            want = (R[i] << d) + z3.ZeroExt(WS - width_b, digit)
+        else:
+            want = (R[i] << d)          # entries beyond min(#points, #scalars) contribute nothing
         diffs.append(res2.c[i] != want)
     chk.must_unsat(pre + "res' = 2^%d res + sum_i bits[%d..%d](k_i) e_i" % (d, lo, b), z3.And(pc, z3.Or(*diffs)), group='pippenger-step')
     if final is None:
@@ -269,6 +273,15 @@ def pippenger(ctx):
             for pi in positions_for(tier, sched, w):
                 nxt = sched[pi + 1] if pi + 1 < len(sched) else None
                 step(ex, f, head, proj, aff, w, n, sched[pi], nxt, chk, gname)
+        # mismatched list lengths inside the bucket method (every digit-extraction branch): only the first min entries count, no panic
+        if gname == 'G1':
+            wm = 3
+            sched = scheds[wm]
+            ex.unroll_limit = max((1 << wm) + 3, 40)
+            for (npts_, nsc_) in [(1, 2), (2, 1)]:
+                for pi in positions_for('quick', sched, wm):
+                    nxt = sched[pi + 1] if pi + 1 < len(sched) else None
+                    step(ex, f, head, proj, aff, wm, 2, sched[pi], nxt, chk, gname, tag=' with %d points / %d scalars' % (npts_, nsc_), npts=npts_, nsc=nsc_)
         ex.unroll_limit = 600
         # precondition: top bit of every scalar clear -- the assert fires without it (first window only)
         nob = len(ex.obligations)
